@@ -6,7 +6,7 @@ hooks = {
    'packet/mod.rs','packet/extension_fields.rs','packet/v5/mod.rs','packet/v5/server_reference_id.rs','packet/v5/extension_fields.rs',
    'nts/mod.rs','nts/messages.rs','nts/record.rs'],
  'ntpd': ['lib.rs','daemon/sock_source.rs','daemon/config/mod.rs','daemon/config/ntp_source.rs','daemon/config/server.rs','daemon/spawn/mod.rs','daemon/spawn/pool.rs',
-   'daemon/spawn/standard.rs','daemon/spawn/nts_pool.rs','daemon/sockets.rs','daemon/server.rs','daemon/nts_key_provider.rs','daemon/observer.rs','daemon/clock.rs','daemon/keyexchange.rs'],
+   'daemon/spawn/standard.rs','daemon/spawn/nts_pool.rs','daemon/sockets.rs','daemon/server.rs','daemon/nts_key_provider.rs','daemon/observer.rs','daemon/clock.rs','daemon/keyexchange.rs','daemon/system.rs'],
  'statime-algo': ['lib.rs','estimator.rs','filter.rs'],
  'statime-base': ['lib.rs','time_types.rs'],
  'statime-wire': ['lib.rs','common/tlv.rs','messages/mod.rs'],
